@@ -1,0 +1,44 @@
+//go:build verif
+
+// Contracts (machine-checked by /verif/engine, see /verif/DESIGN.md). Comment-only file:
+// with the build tag off it does not exist, with it on it adds no code.
+package proxy
+
+// ---- C10: only valid usernames are admitted ------------------------------------------------------
+
+// The login username check accepts exactly 2..16 characters from A-Z a-z 0-9 '_' (RE2 semantics of the
+// compiled constant pattern, `$` = end of text).
+//@ regexlang playerNameRegex == "[A-Za-z0-9_]{2,16}" ; props C10
+
+// The username is checked before anything is stored or any event is fired for the login.
+//@ func (*initialLoginSessionHandler).handleServerLogin
+//@   props C10
+//@   at-call MatchString as m: assert arg0 == playerNameRegex && streq(arg1, login.Username)
+//@   at-store login: assert called(m) && res(m) && value == login
+//@   at-call newPreLoginEvent: assert called(m) && res(m) && streq(arg1, login.Username)
+//@   at-call Fire: assert called(m) && res(m)
+//@   at-call loginEventFired: assert called(m) && res(m)
+
+// ---- C20: velocity modern forwarding at the backend login ------------------------------------------
+
+// The requested version is the backend's single (signed, as Velocity reads it) byte, default 1; the payload is
+// created for this player under the configured secret and answered on the same message id; "forwarded" is
+// recorded only after the answer was written.
+//@ func (*backendLoginSessionHandler).handleLoginPluginMessage
+//@   props C20
+//@   at-call config as cfg
+//@   at-call CreateForwardingData as cfd: assert [secret] streq(bytes(arg0), res(cfg).Forwarding.VelocitySecret)
+//@   at-call CreateForwardingData: assert [player] arg2 != nil && ref(arg2) == b.serverConn.player
+//@   at-call CreateForwardingData: assert [requested-signed-byte] arg3 == ite(len(p.Data) == 1, int(int8(p.Data[0])), 1)
+//@   at-call WritePacket<*packet.LoginPluginResponse>#1 as wp: assert called(cfd) ==> (res(cfd, 1) == nil && cast(arg1, *packet.LoginPluginResponse).Data == res(cfd, 0) && cast(arg1, *packet.LoginPluginResponse).ID == p.ID && cast(arg1, *packet.LoginPluginResponse).Success)
+//@   at-call Store: assert called(cfd) && called(wp) && res(wp) == nil && arg1
+
+// A backend that completes login in velocity mode without having requested forwarding is refused.
+//@ func (*backendLoginSessionHandler).handleServerLoginSuccess
+//@   props C20
+//@   at-call config#1 as cfg
+//@   at-call Load as fwd
+//@   at-call disconnectResult#1 as refuse: assert ref(arg0) == velocityIpForwardingFailure
+//@   at-call disconnect#1 as disc
+//@   at-call Lock#1 as proceed: assert res(cfg).Forwarding.Mode != config.VelocityForwardingMode || (called(fwd) && res(fwd))
+//@   ensures [refused] called(fwd) && !res(fwd) ==> called(refuse) && called(disc) && !called(proceed)
